@@ -652,6 +652,7 @@ func run(c *mon.Ctx) {
 			c.Sample(func() interface{} { return wit{Op: "InsertPTS", Value: v, Want: mon.Hex(e[:])} })
 		}
 	})
+	c.Floor("kept.decoded PES header.looked_at_again_after_64_or_more_later_objects", 4000)
 	c.Floor("concurrent.calls", 20000)
 	c.Stream("concurrent-codecs", c.N(8, 200), func(i int, r *gen.Rand) {
 		c.Concurrent("InsertPCR/ExtractPCR/InsertPTS/ExtractTime", 8, 20000, r, func(q *gen.Rand) string {
